@@ -2,6 +2,7 @@ import Cutadapt.Proofs.StepsPaired
 import Cutadapt.Proofs.StepsPair
 import Cutadapt.Proofs.StepsShape
 import Cutadapt.Generated.PairFilter
+import Cutadapt.Generated.PairRanks
 /-! # C05 — paired-end outputs stay synchronized and pairs are filtered as a unit
 
 Model: `Cutadapt.Pipeline` (`stepP`, `pairFiltered`, `applyP … (.pairAdapters …)`, `bestPairGo`, `runPaired`),
@@ -366,5 +367,31 @@ theorem filter_modes_documented {o : Opts} {names names2 : List String} {steps :
           cases hug : (o.untrimmedOut.isSome || o.untrimmedPaired.isSome) <;>
           cases hem : (names2.isEmpty || names.isEmpty) <;> simp [hdt, hdu, hp, hug, hem] at hs ⊢ <;> grind
       · cases hs
+
+/-! ## `--pair-adapters`: the rank of an adapter is its position on the command line (observed on the real program)
+
+`Cutadapt.Generated.pairRankObserved` holds, for several pairs of `-a` / `-A` lists in which sequences are given more than once (combinatorial
+dual indices: ranks (X,P), (Y,P), (X,Q); some specifications are verbatim repetitions), what the real command-line program did with the sixteen
+probe pairs that carry none or an exact copy of one of three sequences in R1 and in R2. -/
+
+/-- the documented outcome: both mates are cut (1) iff some rank — position `i` in both lists — has its R1 adapter in R1 and its R2 adapter in
+    R2; otherwise neither mate is changed (0). `a`, `b`: 0 = no adapter in the read, `k+1` = a copy of sequence `k`. -/
+def docPairOutcome (l1 l2 : List Nat) (a b : Nat) : Nat :=
+  if (l1.zip l2).any (fun p => p.1 + 1 == a && p.2 + 1 == b) then 1 else 0
+
+/-- **Both mates are trimmed by the adapters of one rank, or neither is changed — with the rank counted on the command line**: every observed
+    probe pair was cut at both copies exactly when the `i`-th `-a` and the `i`-th `-A` adapter, for one `i`, occur in R1 and R2, and left
+    untouched otherwise; no pair was changed on one side only. (A program that dropped or reordered repeated specifications on one side would
+    shift the ranks against each other and fail this table.) -/
+theorem generated_pair_ranks_documented :
+    ∀ row ∈ Generated.pairRankObserved,
+      ∃ ls, Generated.pairRankLists[row.1]? = some ls ∧ row.2.2.2 = docPairOutcome ls.1 ls.2 row.2.1 row.2.2.1 := by
+  decide
+
+/-- the table is not trivial: it holds trimmed pairs, untouched pairs whose mates both carry an adapter (of different ranks), and lists with
+    repeated sequences -/
+example : (Generated.pairRankObserved.any (fun r => r.2.2.2 == 1) &&
+    Generated.pairRankObserved.any (fun r => r.2.2.2 == 0 && r.2.1 != 0 && r.2.2.1 != 0) &&
+    Generated.pairRankLists.any (fun l => !l.1.Nodup || !l.2.Nodup)) = true := by decide
 
 end Cutadapt.C05
